@@ -48,6 +48,8 @@ func instrument(name string, src []byte, o instOpts) ([]byte, map[string]int, er
 			alias, repl = s[0], s[1]
 		} else if path == "net" && o.net {
 			alias, repl = "net", "verif/simkit/simnet/netshim"
+		} else if path == "time" && o.time {
+			alias, repl = "time", "verif/simkit/simtime"
 		} else if r, ok := o.extra[path]; ok && o.swap {
 			alias, repl = lastElem(path), r
 		} else {
